@@ -18,7 +18,7 @@ NAME_PAIRS = [("serialize", "deserialize"), ("serialize_with_version", "deserial
 
 def run(ctx):
     fx = ctx.facts("default")
-    fixtures.run(ctx, ['pair'])
+    fixtures.run(ctx, ['pair', 'marker'])
     # 1. primitives: every DataOutput::write_K against every DataInput::read_K
     W, Rd = {}, {}
     for fid in fx.fn_ids():
@@ -65,6 +65,28 @@ def run(ctx):
     ctx.instance("R-PAIR.composite.events", ncomp)
     ctx.floor("R-PAIR.composite.pairs", 20)
     ctx.floor("R-PAIR.composite.events", 20)
+    # 2b. one-byte presence/kind markers: what follows marker c on the writer side is what the reader's arm c consumes
+    from collections import defaultdict
+    groups = defaultdict(lambda: ([], []))
+    for f in IO_FILES:
+        for fid in fx.fn_ids(f):
+            if "{closure" in fid or "::tests::" in fid:
+                continue
+            fn = Fn(fx.raw(fid))
+            pre = fid.rsplit("::", 1)[0]
+            if pair.writer_markers(fn):
+                groups[pre][0].append(fn)
+            if pair.reader_markers(fn):
+                groups[pre][1].append(fn)
+    nmark = 0
+    for pre, (ws, rs) in sorted(groups.items()):
+        for w in ws:
+            for r in rs:
+                ctx.analysed_fns.update([w.id, r.id])
+                nmark += pair.compare_markers(ctx, "R-PAIR.marker", "%s::%s<->%s" % (pre[-50:], w.id.rsplit("::", 1)[-1],
+                                                                                       r.id.rsplit("::", 1)[-1]), w, r)
+    ctx.instance("R-PAIR.marker.arms", nmark)
+    ctx.floor("R-PAIR.marker.arms", 20)
     # 3. inverse dispatch of VarIntEncoder
     VE = "io::var_int_variants::VarIntEncoder::"
     ndisp = 0
@@ -92,7 +114,9 @@ def run(ctx):
                    "refill behaviour are NOT decided",
         explanation="R-PAIR in 'strong' projection (multi-byte integers with endianness, primitive read/write kinds, nested "
                     "serialize/deserialize with their type) over every DataOutput x DataInput implementor pair and every "
-                    "serialize/deserialize pair of the io files; R-VARIANT.inverse: per VarIntStrategy variant the encode "
+                    "serialize/deserialize pair of the io files; R-PAIR.marker: for every constant one-byte marker a writer emits, "
+                    "the events that follow it equal the events of every successful path of the reader's switch arm for that "
+                    "value (both directions: nothing unread, nothing over-read); R-VARIANT.inverse: per VarIntStrategy variant the encode "
                     "arm and the decode arm call helpers with the same stem.",
         trusted_base=["rustc nightly MIR", "zfacts", "rules/pair.py (event table)"],
         rule_text="obligation = (writer, reader) pair | (strategy variant, encode arm, decode arm)",
